@@ -1,0 +1,11 @@
+//go:build verif
+
+// Contracts for the lvc verifier (comment-only file, compiled only with -tags verif).
+
+package bootstrapping
+
+// ---- copy constructors (property C10) ----
+//@ copy Evaluator.ShallowCopy
+//@   shared Parameters EvaluationKeys xPow2N1 xPow2N2 xPow2InvN1 xPow2InvN2 Mod1Parameters S2CDFTMatrix C2SDFTMatrix SkDebug
+//@   copied Evaluator
+//@   fresh DFTEvaluator Mod1Evaluator DomainSwitcher
